@@ -173,8 +173,8 @@ func PropC03(c *vs.Case, f Factory, kind string) error {
 	if sawIncl && sawExcl {
 		c.NonTrivial()
 	}
-	if len(env.CacheViolations) > 0 {
-		return vs.Violf("C17/cache-mutated", "shared cache objects changed during a sync: %v", env.CacheViolations)
+	if v := env.SharedStateViolation(); v != nil {
+		return v
 	}
 	return nil
 }
